@@ -14,11 +14,19 @@ ASSUMPTIONS = ["distance comparison uses correctly rounded double subtraction, t
 SHARDS = {"quick": 4, "thorough": 16}
 
 finite = st.floats(allow_nan=False, allow_infinity=False, width=64, min_value=-1e12, max_value=1e12)
+# the whole double range: cells wider than 1e154 (squares overflow) and narrower than 1e-162 (squares underflow)
+anyfinite = st.one_of(st.floats(allow_nan=False, allow_infinity=False, width=64),
+                      st.sampled_from([1e308, -1e308, 1e200, -1e200, 1e155, 3e154, 1e-200, -1e-200, 5e-324, 1e-163, 2e-308]))
 
 
 @st.composite
 def grids(draw):
-    kind = draw(st.sampled_from(["uniform", "random", "repeats", "single"]))
+    kind = draw(st.sampled_from(["uniform", "random", "repeats", "single", "wide", "tiny"]))
+    if kind == "wide":
+        return kind, sorted(draw(st.lists(anyfinite, min_size=1, max_size=12, unique=True)))
+    if kind == "tiny":
+        sc = draw(st.sampled_from([1e-170, 1e-250, 1e-300, 1e-320]))
+        return kind, sorted({k * sc for k in draw(st.lists(st.integers(-50, 50), min_size=1, max_size=12))})
     if kind == "uniform":
         lo = draw(st.floats(-1e6, 1e6, allow_nan=False))
         p = draw(st.sampled_from([1e-4, 0.001, 0.01, 0.05, 0.1, 0.25, 0.3, 1.0, 3.0, 7.5, 1000.0]))
@@ -52,6 +60,12 @@ def case_get_closest(draw):
             vals.append((g[i] + g[i + 1]) / 2)
         elif how == "far":
             vals.append(draw(st.sampled_from([-1e300, 1e300, -1e15, 1e15])))
+        elif how == "mid" or kind in ("wide", "tiny"):
+            # a point strictly inside a cell, nearer to one end (quarter points): magnitude follows the grid's
+            i = draw(st.integers(0, max(0, len(g) - 2)))
+            j = min(i + 1, len(g) - 1)
+            w = draw(st.sampled_from([0.25, 0.75, 0.1, 0.9]))
+            vals.append(g[i] * (1 - w) + g[j] * w)
         else:
             i = draw(st.integers(0, len(g) - 1))
             vals.append(float(np.nextafter(g[i], draw(st.sampled_from([-np.inf, np.inf])))))
